@@ -56,13 +56,13 @@ def _fp(node, deep):
             items.append((k, _val(v, deep, not raw)))
     out = (type(node).__name__, tuple(items))
     if deep:
-        ty = node.type
+        try:
+            ty = node.type
+        except Exception:  # e.g. a Cast whose required "to" was removed by an edit
+            ty = None
         ty_s = None
         if ty is not None and ty is not node:
-            try:
-                ty_s = ty.sql() if _is_expr(ty) else repr(ty)
-            except Exception:
-                ty_s = repr(ty)
+            ty_s = _fp(ty, False) if _is_expr(ty) else repr(ty)
         comments = tuple(node.comments) if node.comments else ()
         try:
             meta_t = tuple(sorted((str(k), repr(v)) for k, v in (node.meta or {}).items()))
